@@ -30,6 +30,10 @@ func runC32(c *Ctx) {
 		return
 	}
 	c32DecryptClamp(c)
+	// a truncated ticket must fall back to a full handshake, not panic: C31's minimum-length cut on decryptTicket
+	c.borrow(runC31, func(o *Obligation) bool { return strings.Contains(o.Func, "decryptTicket") && o.Rule == "R-CUT" })
+	// never blocks: the lock discipline of C34 around handshakeStatus
+	c.borrow(runC34, func(o *Obligation) bool { return strings.Contains(o.Construct, "handshakeStatus") })
 	c.DeadObligations(c.W.FuncsOfPkg("z/tls"), "package tls")
 	// ---------------- bounds
 	scope := []string{
